@@ -75,7 +75,10 @@ def reference(f, xs):
   """Per-element expectation.
 
   Returns dict of arrays:
-    s       surrogate the straight-through expression starts from (float64)
+    s       surrogate the straight-through expression starts from (float64):
+            x (signed variant; ReLU variant for 0 <= x <= max_value),
+            slope*x (leaky side), max_value (ReLU variant, x > max_value);
+            skind = 0 / 1 / 2 names which one
     sign    +1 / -1 expected sign, 0 = either accepted (subnormal input, which
             TF's denormals-are-zero mode cannot distinguish from +-0)
     e       expected exponent, alt: second accepted exponent (== e if none)
@@ -102,13 +105,17 @@ def reference(f, xs):
     sign = np.where(neg & (sl != 0.0), -1, 1)
     sign = np.where(subn & neg & (sl != 0.0), 0, sign)
     s = np.where(neg, x * sl, x)
+    # surrogate kind: 0 = x, 1 = slope*x, 2 = max_value (x above the clamp)
+    skind = np.where(neg & (sl != 0.0), 1, 0)
     if mv is not None:
       s = np.where(x <= mv, s, mv)
+      skind = np.where(x <= mv, skind, 2)
   else:
     a = ax
     sign = np.where(x < 0, -1, 1)
     sign = np.where(subn, 0, sign)
     s = x
+    skind = np.zeros(n, dtype=np.int64)
   below = a < EPS32
   clamp = np.zeros(n, dtype=bool)
   v = np.where(below, 1.0, a)
@@ -159,9 +166,15 @@ def reference(f, xs):
   cancel = np.zeros(n, dtype=bool)
   if f["use_ste"]:
     cancel = np.abs(s) >= mag * 2.0 ** 24
+    if mv is not None and mv >= 2.0 ** (24 + f["top"]):
+      raise ValueError("max_value itself would be absorbed: outside the domain")
+    # above the clamp the documented surrogate is the constant max_value
+    # (< 2^24 * 2^top in this domain): never the cancellation regime, the
+    # result must be exact for every finite input
+    cancel &= (skind != 2)
   subcode = np.minimum(e, alt) < -126
   return {"x": x, "s": s, "sign": sign, "e": e, "alt": alt, "region": region,
-          "cancel": cancel, "subcode": subcode, "band": band,
+          "cancel": cancel, "subcode": subcode, "band": band, "skind": skind,
           "saturated": sat_lo | sat_hi | clamp, "below": below, "exact": exact,
           "nearbp": nearbp, "bp": bp}
 
